@@ -114,7 +114,10 @@ def gen_kwargs(rng, subset, low_checksum=False):
         kinds.append(kind)
     # noise that create() must skip
     if rng.random() < 0.3:
-        kw.append((rng.choice(['foo', 'station', 'raw', 'g', 's', 'Text']), rng.choice(['x', 1, 'a:b'])))
+        # unknown keywords with every kind of value, in particular things that look like a tag block themselves (a parsed
+        # block's asdict() carries `raw`): all of them must be ignored
+        kw.append((rng.choice(['foo', 'station', 'raw', 'raw', 'g', 's', 'Text']),
+                   rng.choice(['x', 1, 'a:b', b'c:1*68', b's:OLD,d:HQ*00', 'c:1*68', b'', None, 0, ('t', 1)])))
     if rng.random() < 0.3:
         free = [f for f in ALL_FIELDS if f not in subset]
         if free:
